@@ -71,7 +71,42 @@ pub fn show_cmd(c: &Cmd) -> String {
 }
 
 pub fn show_resp(r: &RespVec) -> String {
-    format!("{:?}", RVal::from_resp(r)).chars().take(200).collect()
+    fn go(r: &RespVec, out: &mut String) {
+        let lossy = |b: &[u8]| {
+            let s = String::from_utf8_lossy(b);
+            if s.chars().count() > 60 {
+                format!("{}..({}B)", s.chars().take(48).collect::<String>(), b.len())
+            } else {
+                s.to_string()
+            }
+        };
+        match r {
+            Resp::Simple(s) => out.push_str(&format!("+{}", lossy(s))),
+            Resp::Error(s) => out.push_str(&format!("-{}", lossy(s))),
+            Resp::Integer(s) => out.push_str(&format!(":{}", lossy(s))),
+            Resp::Bulk(BulkStr::Nil) => out.push_str("(nil)"),
+            Resp::Bulk(BulkStr::Str(s)) => out.push_str(&format!("\"{}\"", lossy(s))),
+            Resp::Arr(Array::Nil) => out.push_str("(nil-array)"),
+            Resp::Arr(Array::Arr(v)) => {
+                out.push('[');
+                for (i, x) in v.iter().enumerate() {
+                    if i > 0 {
+                        out.push_str(", ");
+                    }
+                    if out.len() > 400 {
+                        out.push_str("...");
+                        break;
+                    }
+                    go(x, out);
+                }
+                out.push(']');
+            }
+        }
+    }
+    let mut s = String::new();
+    go(r, &mut s);
+    let _ = RVal::from_resp;
+    s
 }
 
 pub fn upper(b: &[u8]) -> String {
